@@ -1,27 +1,1679 @@
-//! C17 — stub, not built yet.
+//! C17 Web Annotation export is well-formed JSON faithful to the annotation.
+//!
+//! Case = a hostile `History` (ids, keys and values with quotes, backslashes, control characters, non-BMP
+//! codepoints) + extra operations of this file's own (resources / annotations with further hostile ids, data in
+//! IRI-named sets and in the W3C anno vocabulary, more hostile values) + an export configuration.
+//! Every annotation of the final real store is exported with `ResultItem<Annotation>::to_webannotation` and the
+//! output is judged by `serde_json` and compared with the annotation as the store's public API presents it.
+//!
+//! Everything the rustdoc of `WebAnnoConfig` / `IRI` / `to_webannotation` does not pin down is three-valued
+//! (don't care, counted): the transformation applied to characters that are invalid in an IRI, whether a `/` is
+//! inserted between a prefix and an identifier, whether an IRI-like string value is a plain string or `{"id":..}`,
+//! whether W3C vocabulary predicates live at top level or in the body, the `type` strings of targets, the order of
+//! non-text targets, namespace compaction (names are compared after JSON-LD style expansion).
+//!
+//! Triage aid: `C17_DUMP=1 check C17 --replay <file>` prints every exported document.
 
 use crate::engine::*;
+use crate::hist::*;
+use crate::model::{MSel, Val};
+use crate::observe::decode_selector;
 use proptest::prelude::*;
+use serde::{Deserialize, Serialize};
+use serde_json::Value;
+use stam::*;
+use std::collections::BTreeMap;
 
 pub struct C17;
 
+pub const W3C_NS_ANNO: &str = "http://www.w3.org/ns/anno/";
+pub const W3C_CONTEXT_ANNO: &str = "http://www.w3.org/ns/anno.jsonld";
+
+// ------------------------------------------------------------------------------------------------
+// pools
+
+pub const IRI_PREFIXES: [&str; 7] = [
+    "_:",
+    "",
+    "https://example.org/",
+    "http://example.org/base#",
+    "https://example.org/noslash",
+    "urn:stam:",
+    "https://example.org/a/",
+];
+
+/// (namespace prefix, uri prefix)
+pub const NS_POOL: [(&str, &str); 6] = [
+    ("ex", "http://example.org/"),
+    ("my", "https://example.org/set/"),
+    ("voc", "http://example.org/vocab#"),
+    ("def", "_:"),
+    ("base", "https://example.org/"),
+    ("e2", "http://example.org/ty"),
+];
+
+pub const CTX_POOL: [&str; 3] = [
+    "https://example.org/context.jsonld",
+    "http://example.org/ctx2.jsonld",
+    "https://example.org/c?a=1&b=2",
+];
+
+pub const TEMPLATES: [&str; 4] = [
+    "{resource}/{begin}/{end}",
+    "https://example.org/fetch?res={resource}&b={begin}&e={end}",
+    "{resource}#char={begin},{end}",
+    "https://example.org/static",
+];
+
+/// ids of the extra resources / annotations; `{n}` is replaced by a counter (keeps them unique)
+pub const XIDS: [&str; 18] = [
+    "x{n}",
+    "x{n}",
+    "https://example.org/res/{n}",
+    "urn:stam:{n}",
+    "file:///tmp/{n}",
+    "x{n}\\",
+    "x{n}\\u0041",
+    "x{n}\\n",
+    "x{n}\u{1}c",
+    "x{n}\u{7f}",
+    "x{n}\"q\"",
+    "{n}\\\"",
+    "x{n}\rz",
+    "x{n}<>|^`",
+    "日本{n}😀",
+    "http://example.org/a b/{n}",
+    "mailto:{n}@example.org",
+    "x{n}/y#z",
+];
+
+/// dataset ids of the extra data (datasets are created on the fly)
+pub const XSETS: [&str; 10] = [
+    W3C_NS_ANNO,
+    W3C_CONTEXT_ANNO,
+    W3C_NS_ANNO,
+    "https://example.org/set/",
+    "http://example.org/vocab#",
+    "https://example.org/ns",
+    "plainset",
+    "set \"q\"",
+    "set\\b",
+    "set\u{1}",
+];
+
+pub const ANNO_KEYS: [&str; 11] = [
+    "motivation",
+    "created",
+    "creator",
+    "generated",
+    "generator",
+    "type",
+    "id",
+    "value",
+    "purpose",
+    "format",
+    "language",
+];
+
+pub const XKEYS: [&str; 14] = [
+    "name",
+    "http://example.org/vocab#pos",
+    "https://example.org/set/lemma",
+    "lemma",
+    "k\"q",
+    "k\\u0041",
+    "k\\",
+    "k\ttab",
+    "k\nnl",
+    "k\u{1}ctl",
+    "ключ😀",
+    "a/b",
+    "with space",
+    "urn:k:1",
+];
+
+pub const XSTRINGS: [&str; 30] = [
+    "\r",
+    "\u{8}",
+    "\u{c}",
+    "\u{0}",
+    "\u{1f}",
+    "\\",
+    "\\\"",
+    "\\n",
+    "\\u0041",
+    "x\\",
+    "\"",
+    "\"\"",
+    "a\"b\\c\nd\te",
+    "\u{2028}",
+    "\u{7f}",
+    "</script>",
+    "\u{10FFFF}",
+    "𝄞",
+    "{\"a\":1}",
+    "[1,2]",
+    "a, b",
+    " ",
+    "urn:x",
+    "_:b0",
+    "file:///x",
+    "mailto:x@y",
+    "https://example.org/a\"b",
+    "http://example.org/a\\b",
+    "https://example.org/é😀",
+    "http://example.org/with space",
+];
+
+pub const XALPHABET: [char; 24] = [
+    '"', '\\', '/', '\n', '\r', '\t', '\u{1}', '\u{7f}', '\u{8}', 'é', '😀', 'a', 'b', '1', ':', '{', '}', '[', ']',
+    ',', ' ', 'n', 'u', '\'',
+];
+
+// ------------------------------------------------------------------------------------------------
+// case
+
+#[derive(Clone, Debug, Serialize, Deserialize, PartialEq)]
+pub struct CfgSpec {
+    pub ann_iri: u8,
+    pub set_iri: u8,
+    pub res_iri: u8,
+    pub namespaces: Vec<u8>,
+    pub extra_context: Vec<u8>,
+    pub template: Option<u8>,
+    #[serde(default)]
+    pub generate_ids: bool,
+    #[serde(default)]
+    pub auto_generated: bool,
+    #[serde(default)]
+    pub auto_generator: bool,
+}
+
+#[derive(Clone, Debug, Serialize, Deserialize, PartialEq)]
+pub enum XTarget {
+    Text { res: u16, off: OffSpec },
+    Res { res: u16 },
+    Set { set: u16 },
+    Ann { ann: u16 },
+    /// kind: 0 multi, 1 composite, 2 directional; text selections only (mixed shapes come from the history)
+    Complex { kind: u8, parts: Vec<(u16, OffSpec)> },
+}
+
+#[derive(Clone, Debug, Serialize, Deserialize, PartialEq)]
+pub struct XData {
+    pub set: u8,
+    pub key: u8,
+    pub val: Val,
+}
+
+#[derive(Clone, Debug, Serialize, Deserialize, PartialEq)]
+pub enum XOp {
+    AddResource { id: u8, text: String },
+    Annotate { id: Option<u8>, target: XTarget, data: Vec<XData> },
+}
+
+#[derive(Clone, Debug, Serialize, Deserialize, PartialEq)]
+pub struct Case {
+    pub hist: History,
+    #[serde(default)]
+    pub extras: Vec<XOp>,
+    pub cfg: CfgSpec,
+}
+
+// ------------------------------------------------------------------------------------------------
+// strategies
+
+fn xstr() -> BoxedStrategy<String> {
+    prop_oneof![
+        3 => proptest::sample::select(XSTRINGS.to_vec()).prop_map(|s| s.to_string()),
+        2 => proptest::collection::vec(proptest::sample::select(XALPHABET.to_vec()), 0..=8)
+            .prop_map(|v| v.into_iter().collect::<String>()),
+        1 => str_val_strategy(true),
+    ]
+    .boxed()
+}
+
+fn xleaf() -> BoxedStrategy<Val> {
+    prop_oneof![
+        6 => xstr().prop_map(Val::Str),
+        5 => leaf_val_strategy(true),
+        1 => proptest::sample::select(vec![0.1f64, 1e300, -1e-300, 2.5e-10, 123456.789, -1.0])
+            .prop_map(Val::Float),
+    ]
+    .boxed()
+}
+
+fn xval() -> BoxedStrategy<Val> {
+    let leaf = xleaf();
+    prop_oneof![
+        7 => leaf.clone(),
+        2 => proptest::collection::vec(leaf.clone(), 0..=3).prop_map(Val::List),
+        1 => proptest::collection::vec(
+            prop_oneof![2 => leaf.clone(), 1 => proptest::collection::vec(leaf, 0..=2).prop_map(Val::List)],
+            1..=3
+        )
+        .prop_map(Val::List),
+    ]
+    .boxed()
+}
+
+fn xdata() -> BoxedStrategy<XData> {
+    (0u8..XSETS.len() as u8, 0u8..64, xval())
+        .prop_map(|(set, key, val)| XData { set, key, val })
+        .boxed()
+}
+
+fn xtarget() -> BoxedStrategy<XTarget> {
+    prop_oneof![
+        6 => (any::<u16>(), offspec_strategy()).prop_map(|(res, off)| XTarget::Text { res, off }),
+        2 => any::<u16>().prop_map(|res| XTarget::Res { res }),
+        1 => any::<u16>().prop_map(|set| XTarget::Set { set }),
+        2 => any::<u16>().prop_map(|ann| XTarget::Ann { ann }),
+        3 => (0u8..3, proptest::collection::vec((any::<u16>(), offspec_strategy()), 2..=4))
+            .prop_map(|(kind, parts)| XTarget::Complex { kind, parts }),
+    ]
+    .boxed()
+}
+
+fn xop() -> BoxedStrategy<XOp> {
+    prop_oneof![
+        1 => (0u8..XIDS.len() as u8, text_strategy(12)).prop_map(|(id, text)| XOp::AddResource { id, text }),
+        4 => (proptest::option::weighted(0.7, 0u8..XIDS.len() as u8), xtarget(), proptest::collection::vec(xdata(), 0..=3))
+            .prop_map(|(id, target, data)| XOp::Annotate { id, target, data }),
+    ]
+    .boxed()
+}
+
+fn cfgspec() -> BoxedStrategy<CfgSpec> {
+    let iri = || prop_oneof![2 => Just(0u8), 5 => 0u8..IRI_PREFIXES.len() as u8];
+    (
+        (iri(), iri(), iri()),
+        prop_oneof![2 => Just(vec![]), 3 => proptest::collection::vec(0u8..NS_POOL.len() as u8, 1..=3)],
+        prop_oneof![3 => Just(vec![]), 2 => proptest::collection::vec(0u8..CTX_POOL.len() as u8, 1..=2)],
+        proptest::option::weighted(0.45, 0u8..TEMPLATES.len() as u8),
+        proptest::bool::weighted(0.2),
+        proptest::bool::weighted(0.2),
+        proptest::bool::weighted(0.25),
+    )
+        .prop_map(
+            |((ann_iri, set_iri, res_iri), mut namespaces, extra_context, template, generate_ids, auto_generated, auto_generator)| {
+                namespaces.dedup();
+                let mut seen = vec![];
+                namespaces.retain(|n| {
+                    if seen.contains(n) {
+                        false
+                    } else {
+                        seen.push(*n);
+                        true
+                    }
+                });
+                CfgSpec {
+                    ann_iri,
+                    set_iri,
+                    res_iri,
+                    namespaces,
+                    extra_context,
+                    template,
+                    generate_ids,
+                    auto_generated,
+                    auto_generator,
+                }
+            },
+        )
+        .boxed()
+}
+
+// ------------------------------------------------------------------------------------------------
+// resolved configuration (plain data, independent of stam)
+
+#[derive(Clone, Debug)]
+pub struct Cfg {
+    pub ann_iri: String,
+    pub set_iri: String,
+    pub res_iri: String,
+    /// (namespace prefix, uri prefix)
+    pub namespaces: Vec<(String, String)>,
+    pub extra_context: Vec<String>,
+    pub template: Option<String>,
+    pub generate_ids: bool,
+    pub auto_generated: bool,
+    pub auto_generator: bool,
+}
+
+impl CfgSpec {
+    pub fn resolve(&self) -> Cfg {
+        let p = |i: u8| IRI_PREFIXES[i as usize % IRI_PREFIXES.len()].to_string();
+        Cfg {
+            ann_iri: p(self.ann_iri),
+            set_iri: p(self.set_iri),
+            res_iri: p(self.res_iri),
+            namespaces: self
+                .namespaces
+                .iter()
+                .map(|i| {
+                    let (a, b) = NS_POOL[*i as usize % NS_POOL.len()];
+                    (a.to_string(), b.to_string())
+                })
+                .collect(),
+            extra_context: self
+                .extra_context
+                .iter()
+                .map(|i| CTX_POOL[*i as usize % CTX_POOL.len()].to_string())
+                .collect(),
+            template: self.template.map(|i| TEMPLATES[i as usize % TEMPLATES.len()].to_string()),
+            generate_ids: self.generate_ids,
+            auto_generated: self.auto_generated,
+            auto_generator: self.auto_generator,
+        }
+    }
+}
+
+impl Cfg {
+    pub fn to_stam(&self) -> WebAnnoConfig {
+        let mut c = WebAnnoConfig {
+            default_annotation_iri: self.ann_iri.clone(),
+            generate_annotation_iri: self.generate_ids,
+            default_set_iri: self.set_iri.clone(),
+            default_resource_iri: self.res_iri.clone(),
+            extra_context: self.extra_context.clone(),
+            auto_generated: self.auto_generated,
+            auto_generator: self.auto_generator,
+            extra_target_template: self.template.clone(),
+            ..WebAnnoConfig::default()
+        };
+        for (prefix, uri) in &self.namespaces {
+            c = c.with_namespace(prefix.clone(), uri.clone());
+        }
+        c
+    }
+    /// JSON-LD style expansion of a (possibly compacted) name: the name itself and, for `p:rest` with a configured
+    /// namespace prefix `p`, the uri prefix + rest
+    fn expansions(&self, name: &str) -> Vec<String> {
+        let mut v = vec![name.to_string()];
+        for (prefix, uri) in &self.namespaces {
+            if let Some(rest) = name.strip_prefix(prefix.as_str()) {
+                if let Some(rest) = rest.strip_prefix(':') {
+                    v.push(format!("{}{}", uri, rest));
+                }
+            }
+        }
+        v
+    }
+}
+
+// ------------------------------------------------------------------------------------------------
+// character classes (signatures and labels name these, never concrete strings)
+
+pub fn char_class(c: char) -> &'static str {
+    match c {
+        '"' => "quote",
+        '\\' => "backslash",
+        '\t' => "tab",
+        '\n' => "newline",
+        '\r' => "cr",
+        c if (c as u32) < 0x20 => "control",
+        '\u{7f}' => "del",
+        c if (c as u32) > 0xFFFF => "nonbmp",
+        c if !c.is_ascii() => "nonascii",
+        _ => "plain",
+    }
+}
+
+const CLASS_PRIORITY: [&str; 10] = [
+    "control", "backslash", "quote", "newline", "cr", "tab", "del", "nonbmp", "nonascii", "plain",
+];
+
+/// the most dangerous character class present in a string
+pub fn worst_class(s: &str) -> &'static str {
+    if s.is_empty() {
+        return "empty";
+    }
+    for cl in CLASS_PRIORITY {
+        if s.chars().any(|c| char_class(c) == cl) {
+            return cl;
+        }
+    }
+    "plain"
+}
+
+fn classes_of(s: &str) -> Vec<&'static str> {
+    let mut v = vec![];
+    for c in s.chars() {
+        let cl = char_class(c);
+        if cl != "plain" && !v.contains(&cl) {
+            v.push(cl);
+        }
+    }
+    v
+}
+
+// ------------------------------------------------------------------------------------------------
+// the documented IRI rule, three-valued
+
+/// characters that are not allowed in an IRI (RFC 3987): the exporter "applies some transformations" to them, which
+/// transformation is not documented
+fn iri_unsafe(c: char) -> bool {
+    c.is_control()
+        || c == ' '
+        || matches!(c, '"' | '<' | '>' | '\\' | '^' | '`' | '{' | '|' | '}')
+        || c == '\u{2028}'
+        || c == '\u{2029}'
+}
+
+#[derive(Clone, Copy, PartialEq, Eq, Debug)]
+enum IdClass {
+    /// certainly an IRI already: exported as is
+    Iri,
+    /// certainly not an IRI: the prefix is prepended
+    Plain,
+    /// has a colon but is not clearly an absolute IRI: either treatment is accepted
+    Uncertain,
+}
+
+fn classify(id: &str) -> IdClass {
+    if !id.contains(':') {
+        return IdClass::Plain;
+    }
+    let scheme_ok = ["http://", "https://", "urn:", "file:"].iter().any(|p| id.starts_with(p));
+    if scheme_ok && !id.chars().any(iri_unsafe) {
+        IdClass::Iri
+    } else {
+        IdClass::Uncertain
+    }
+}
+
+#[derive(Clone, Debug)]
+enum Piece {
+    /// one of these literal strings
+    Alt(Vec<String>),
+    /// an identifier: literally if it has no IRI-unsafe character, otherwise any span that keeps its safe
+    /// characters in order (the transformation of the unsafe ones is not documented)
+    Id(String),
+}
+
+fn is_subsequence(needle: &[char], hay: &[char]) -> bool {
+    let mut i = 0;
+    for c in hay {
+        if i < needle.len() && *c == needle[i] {
+            i += 1;
+        }
+    }
+    i == needle.len()
+}
+
+fn match_pieces(pieces: &[Piece], s: &[char]) -> bool {
+    match pieces.first() {
+        None => s.is_empty(),
+        Some(Piece::Alt(alts)) => alts.iter().any(|a| {
+            let ac: Vec<char> = a.chars().collect();
+            s.len() >= ac.len() && s[..ac.len()] == ac[..] && match_pieces(&pieces[1..], &s[ac.len()..])
+        }),
+        Some(Piece::Id(id)) => {
+            let idc: Vec<char> = id.chars().collect();
+            if !idc.iter().any(|c| iri_unsafe(*c)) {
+                s.len() >= idc.len() && s[..idc.len()] == idc[..] && match_pieces(&pieces[1..], &s[idc.len()..])
+            } else {
+                let safe: Vec<char> = idc.iter().copied().filter(|c| !iri_unsafe(*c)).collect();
+                // a transformation may drop, replace or percent-encode unsafe characters; it may not invent control
+                // characters the identifier did not contain
+                for cut in 0..=s.len() {
+                    let span = &s[..cut];
+                    if span.iter().any(|c| c.is_control() && !idc.contains(c)) {
+                        break;
+                    }
+                    if is_subsequence(&safe, span) && match_pieces(&pieces[1..], &s[cut..]) {
+                        return true;
+                    }
+                }
+                false
+            }
+        }
+    }
+}
+
+type Pattern = Vec<Piece>;
+
+fn matches_any(patterns: &[Pattern], s: &str) -> bool {
+    let sc: Vec<char> = s.chars().collect();
+    patterns.iter().any(|p| match_pieces(p, &sc))
+}
+
+fn ends_with_sep(s: &str) -> bool {
+    matches!(s.chars().last(), Some('/') | Some('#') | Some(':'))
+}
+
+/// "IRI prefix ... Will be prepended if the public ID is not an IRI yet": prefix directly followed by the id; when
+/// the prefix has no trailing separator a `/` in between is accepted as well; an empty prefix may become `_:`
+fn prefix_alts(prefix: &str) -> Vec<String> {
+    if prefix.is_empty() {
+        vec!["_:".to_string(), String::new()]
+    } else if ends_with_sep(prefix) {
+        vec![prefix.to_string()]
+    } else {
+        vec![format!("{}/", prefix), prefix.to_string()]
+    }
+}
+
+/// acceptable exported IRIs of an item with public id `id` under `prefix`
+fn iri_patterns(prefix: &str, id: &str) -> Vec<Pattern> {
+    let asis = vec![Piece::Alt(vec![id.to_string()])];
+    let prefixed = vec![Piece::Alt(prefix_alts(prefix)), Piece::Id(id.to_string())];
+    match classify(id) {
+        IdClass::Iri => vec![asis],
+        IdClass::Plain => vec![prefixed],
+        IdClass::Uncertain => vec![asis, prefixed],
+    }
+}
+
+/// acceptable predicates of key `key` in set `set`: the key itself if it is an IRI, else the IRI of the set followed by the key
+fn predicate_patterns(cfg: &Cfg, set: &str, key: &str) -> Vec<Pattern> {
+    let mut out = vec![];
+    let kc = classify(key);
+    if kc != IdClass::Plain {
+        out.push(vec![Piece::Alt(vec![key.to_string()])]);
+    }
+    if kc != IdClass::Iri {
+        let sep = if ends_with_sep(set) {
+            vec![String::new()]
+        } else {
+            vec!["/".to_string(), String::new()]
+        };
+        for sp in iri_patterns(&cfg.set_iri, set) {
+            let mut p = sp.clone();
+            p.push(Piece::Alt(sep.clone()));
+            p.push(Piece::Id(key.to_string()));
+            out.push(p);
+        }
+    }
+    out
+}
+
+// ------------------------------------------------------------------------------------------------
+// value comparison
+
+struct Mismatch {
+    facet: &'static str,
+    sig: String,
+    detail: String,
+}
+
+fn json_type(j: &Value) -> &'static str {
+    match j {
+        Value::Null => "null",
+        Value::Bool(_) => "bool",
+        Value::Number(_) => "number",
+        Value::String(_) => "string",
+        Value::Array(_) => "array",
+        Value::Object(_) => "object",
+    }
+}
+
+fn string_diff_class(expected: &str, got: &str) -> &'static str {
+    let e: Vec<char> = expected.chars().collect();
+    let g: Vec<char> = got.chars().collect();
+    for i in 0..e.len() {
+        if i >= g.len() || g[i] != e[i] {
+            return char_class(e[i]);
+        }
+    }
+    "trailing"
+}
+
+fn short(s: &str) -> String {
+    let mut t: String = s.chars().take(300).collect();
+    if t.len() < s.len() {
+        t.push('…');
+    }
+    t
+}
+
+/// does the JSON value carry `v` with the same JSON type and content? `checks`/`dontcare` are counted by the caller
+fn cmp_val(v: &Val, j: &Value, dontcare: &mut u64) -> Result<(), Mismatch> {
+    let type_mismatch = |facet: &'static str, what: &str| Mismatch {
+        facet,
+        sig: format!("{}|type|got={}", what, json_type(j)),
+        detail: format!("value {:?} exported as JSON {} {}", v, json_type(j), short(&j.to_string())),
+    };
+    match v {
+        Val::Null => {
+            if j.is_null() {
+                Ok(())
+            } else {
+                Err(type_mismatch("body.null", "null"))
+            }
+        }
+        Val::Bool(b) => match j.as_bool() {
+            Some(x) if x == *b => Ok(()),
+            Some(_) => Err(Mismatch {
+                facet: "body.bool",
+                sig: "bool|content".into(),
+                detail: format!("value {:?} exported as {}", v, j),
+            }),
+            None => Err(type_mismatch("body.bool", "bool")),
+        },
+        Val::Int(i) => {
+            if !j.is_number() {
+                return Err(type_mismatch("body.number", "int"));
+            }
+            let exact = j.as_i64() == Some(*i);
+            let as_float = i.unsigned_abs() < (1u64 << 53) && j.as_f64() == Some(*i as f64);
+            if exact || as_float {
+                Ok(())
+            } else {
+                Err(Mismatch {
+                    facet: "body.number",
+                    sig: "int|content".into(),
+                    detail: format!("value {:?} exported as {}", v, j),
+                })
+            }
+        }
+        Val::Float(f) => {
+            if !j.is_number() {
+                return Err(type_mismatch("body.number", "float"));
+            }
+            let g = j.as_f64().unwrap_or(f64::NAN);
+            // tolerance: serde_json's default float parser may be off by an ULP on long inputs
+            let tol = 8.0 * f64::EPSILON * f.abs().max(g.abs());
+            if (g - f).abs() <= tol {
+                Ok(())
+            } else {
+                Err(Mismatch {
+                    facet: "body.number",
+                    sig: "float|content".into(),
+                    detail: format!("value {:?} exported as {}", v, j),
+                })
+            }
+        }
+        Val::Str(s) => {
+            let got: &str = match j {
+                Value::String(t) => t.as_str(),
+                Value::Object(m) if s.contains(':') && m.len() == 1 => {
+                    // "Any String value that is a valid IRI SHOULD be interpreted as such": {"id": iri}
+                    match m.get("id").or_else(|| m.get("@id")) {
+                        Some(Value::String(t)) => {
+                            *dontcare += 1;
+                            t.as_str()
+                        }
+                        _ => return Err(type_mismatch("body.string", "string")),
+                    }
+                }
+                _ => return Err(type_mismatch("body.string", "string")),
+            };
+            if got == s {
+                Ok(())
+            } else {
+                Err(Mismatch {
+                    facet: "body.string",
+                    sig: format!("{}|{}", if s.contains(':') { "iri-like" } else { "string" }, string_diff_class(s, got)),
+                    detail: format!("string {:?} exported as {:?}", s, short(got)),
+                })
+            }
+        }
+        Val::Dt(s) => {
+            let Value::String(t) = j else {
+                return Err(type_mismatch("body.datetime", "datetime"));
+            };
+            let a = chrono::DateTime::parse_from_rfc3339(s);
+            let b = chrono::DateTime::parse_from_rfc3339(t);
+            match (a, b) {
+                (Ok(a), Ok(b)) if a == b => Ok(()),
+                (Ok(_), Ok(_)) => Err(Mismatch {
+                    facet: "body.datetime",
+                    sig: "datetime|instant".into(),
+                    detail: format!("datetime {} exported as {:?}", s, t),
+                }),
+                _ => Err(Mismatch {
+                    facet: "body.datetime",
+                    sig: "datetime|not-rfc3339".into(),
+                    detail: format!("datetime {} exported as {:?}, which is not RFC 3339", s, short(t)),
+                }),
+            }
+        }
+        Val::List(items) => {
+            let Value::Array(arr) = j else {
+                return Err(type_mismatch("body.list", if items.is_empty() { "list-empty" } else { "list" }));
+            };
+            if arr.len() != items.len() {
+                return Err(Mismatch {
+                    facet: "body.list",
+                    sig: "list|length".into(),
+                    detail: format!("list of {} items {:?} exported as array of {}: {}", items.len(), v, arr.len(), short(&j.to_string())),
+                });
+            }
+            for (x, y) in items.iter().zip(arr.iter()) {
+                if let Err(m) = cmp_val(x, y, dontcare) {
+                    return Err(Mismatch {
+                        facet: "body.list",
+                        sig: format!("list|{}", m.sig),
+                        detail: format!("in list {:?}: {}", v, m.detail),
+                    });
+                }
+            }
+            Ok(())
+        }
+    }
+}
+
+// ------------------------------------------------------------------------------------------------
+// features of an annotation (labels, non-triviality, diagnosis of malformed output)
+
+#[derive(Default)]
+struct Features {
+    /// (where, class) e.g. ("value","backslash"), ("key","quote"), ("id","control"), ("value","datetime")
+    items: Vec<(&'static str, &'static str)>,
+}
+
+impl Features {
+    fn add(&mut self, wher: &'static str, class: &'static str) {
+        if !self.items.contains(&(wher, class)) {
+            self.items.push((wher, class));
+        }
+    }
+    fn add_str(&mut self, wher: &'static str, s: &str) {
+        for cl in classes_of(s) {
+            self.add(wher, cl);
+        }
+    }
+    fn add_val(&mut self, v: &Val, depth: usize) {
+        match v {
+            Val::Str(s) => {
+                self.add_str("value", s);
+                if s.contains(':') {
+                    self.add("value", "iri-like");
+                }
+                self.add("value", "string");
+            }
+            Val::Null => self.add("value", "null"),
+            Val::Bool(_) => self.add("value", "bool"),
+            Val::Int(_) => self.add("value", "int"),
+            Val::Float(_) => self.add("value", "float"),
+            Val::Dt(_) => self.add("value", "datetime"),
+            Val::List(items) => {
+                if items.is_empty() {
+                    self.add("value", "list-empty");
+                } else if depth > 0 {
+                    self.add("value", "list-nested");
+                } else if items.len() == 1 {
+                    self.add("value", "list-single");
+                } else {
+                    self.add("value", "list");
+                }
+                if depth == 0 && items.iter().any(|x| matches!(x, Val::List(_))) {
+                    self.add("value", "list-nested");
+                }
+                for x in items {
+                    self.add_val(x, depth + 1);
+                }
+            }
+        }
+    }
+    fn has(&self, wher: &str, class: &str) -> bool {
+        self.items.iter().any(|(w, c)| *w == wher && *c == class)
+    }
+    /// root-cause class for output that is not well-formed: the first feature present, in order of how certainly it
+    /// needs care when a JSON document is assembled from strings
+    fn diagnose(&self) -> String {
+        const ORDER: [(&str, &str); 26] = [
+            ("value", "datetime"),
+            ("value", "list-empty"),
+            ("value", "list-nested"),
+            ("value", "list"),
+            ("value", "list-single"),
+            ("value", "control"),
+            ("key", "control"),
+            ("id", "control"),
+            ("value", "backslash"),
+            ("key", "backslash"),
+            ("id", "backslash"),
+            ("key", "quote"),
+            ("id", "quote"),
+            ("value", "quote"),
+            ("key", "newline"),
+            ("value", "newline"),
+            ("value", "cr"),
+            ("key", "cr"),
+            ("id", "cr"),
+            ("value", "tab"),
+            ("key", "tab"),
+            ("id", "tab"),
+            ("target", "skipped-subselector"),
+            ("toplevel", "anno-predicate"),
+            ("config", "extra_context"),
+            ("config", "template"),
+        ];
+        for (w, c) in ORDER {
+            if self.has(w, c) {
+                return format!("{}|{}", w, c);
+            }
+        }
+        "other".to_string()
+    }
+    fn nontrivial(&self) -> bool {
+        self.items.iter().any(|(w, c)| {
+            matches!(*c, "control" | "backslash" | "quote" | "newline" | "cr" | "tab")
+                || (*w == "value"
+                    && matches!(
+                        *c,
+                        "null" | "bool" | "int" | "float" | "datetime" | "list" | "list-empty" | "list-single" | "list-nested"
+                    ))
+        })
+    }
+}
+
+// ------------------------------------------------------------------------------------------------
+// reading the exported target
+
+#[derive(Default, Debug)]
+struct TargetObs {
+    /// (source, start, end) of every object with `source` and `selector`, in document order
+    texts: Vec<(String, Option<u64>, Option<u64>)>,
+    /// `id` of every other object that has one (null for JSON null), in document order
+    refs: Vec<Option<String>>,
+    /// bare strings (extra targets from the template), in document order
+    strings: Vec<String>,
+    /// structural oddities
+    odd: Vec<String>,
+}
+
+fn walk_target(v: &Value, obs: &mut TargetObs) {
+    match v {
+        Value::Array(items) => {
+            for x in items {
+                walk_target(x, obs);
+            }
+        }
+        Value::String(s) => obs.strings.push(s.clone()),
+        Value::Object(m) => {
+            if m.contains_key("source") || m.contains_key("selector") {
+                let source = match m.get("source") {
+                    Some(Value::String(s)) => s.clone(),
+                    other => {
+                        obs.odd.push(format!("source is {:?}", other));
+                        String::new()
+                    }
+                };
+                let sel = m.get("selector");
+                let start = sel.and_then(|s| s.get("start")).and_then(|x| x.as_u64());
+                let end = sel.and_then(|s| s.get("end")).and_then(|x| x.as_u64());
+                obs.texts.push((source, start, end));
+            } else if let Some(items) = m.get("items") {
+                walk_target(items, obs);
+            } else if let Some(id) = m.get("id") {
+                match id {
+                    Value::String(s) => obs.refs.push(Some(s.clone())),
+                    Value::Null => obs.refs.push(None),
+                    other => obs.odd.push(format!("id is {}", other)),
+                }
+            } else {
+                obs.odd.push(format!("object without source, items or id: {}", short(&v.to_string())));
+            }
+        }
+        other => obs.odd.push(format!("unexpected {} in target", json_type(other))),
+    }
+}
+
+// ------------------------------------------------------------------------------------------------
+// applying the extra operations to the real store
+
+fn xid(i: u8, counter: &mut usize) -> String {
+    *counter += 1;
+    XIDS[i as usize % XIDS.len()].replace("{n}", &counter.to_string())
+}
+
+fn xkey(set: &str, key: u8) -> &'static str {
+    if set == W3C_NS_ANNO || set == W3C_CONTEXT_ANNO {
+        ANNO_KEYS[key as usize % ANNO_KEYS.len()]
+    } else {
+        XKEYS[key as usize % XKEYS.len()]
+    }
+}
+
+/// returns false when the store panicked (the case is abandoned: not this property's business)
+fn apply_extra(store: &mut AnnotationStore, op: &XOp, counter: &mut usize, out: &mut Outcome) -> bool {
+    match op {
+        XOp::AddResource { id, text } => {
+            let id = xid(*id, counter);
+            match catch(|| store.add_resource(TextResourceBuilder::new().with_id(id).with_text(text.clone()))) {
+                Ok(Ok(_)) => out.label("extra:add_resource"),
+                Ok(Err(_)) => out.label("extra:rejected"),
+                Err(_) => return false,
+            }
+        }
+        XOp::Annotate { id, target, data } => {
+            let resources: Vec<(TextResourceHandle, usize)> = store.resources().map(|r| (r.handle(), r.textlen())).collect();
+            let sets: Vec<AnnotationDataSetHandle> = store.datasets().map(|s| s.handle()).collect();
+            let anns: Vec<AnnotationHandle> = store.annotations().map(|a| a.handle()).collect();
+            let text_sel = |res: u16, off: &OffSpec| -> Option<SelectorBuilder<'static>> {
+                if resources.is_empty() {
+                    return None;
+                }
+                let (h, len) = resources[pick(res, resources.len())];
+                Some(SelectorBuilder::TextSelector(BuildItem::Handle(h), off.to_offset(len)))
+            };
+            let tb: Option<SelectorBuilder<'static>> = match target {
+                XTarget::Text { res, off } => text_sel(*res, off),
+                XTarget::Res { res } => {
+                    if resources.is_empty() {
+                        None
+                    } else {
+                        Some(SelectorBuilder::ResourceSelector(BuildItem::Handle(resources[pick(*res, resources.len())].0)))
+                    }
+                }
+                XTarget::Set { set } => {
+                    if sets.is_empty() {
+                        None
+                    } else {
+                        Some(SelectorBuilder::DataSetSelector(BuildItem::Handle(sets[pick(*set, sets.len())])))
+                    }
+                }
+                XTarget::Ann { ann } => {
+                    if anns.is_empty() {
+                        None
+                    } else {
+                        Some(SelectorBuilder::AnnotationSelector(BuildItem::Handle(anns[pick(*ann, anns.len())]), None))
+                    }
+                }
+                XTarget::Complex { kind, parts } => {
+                    let subs: Vec<SelectorBuilder<'static>> = parts.iter().filter_map(|(r, o)| text_sel(*r, o)).collect();
+                    if subs.len() < 2 {
+                        None
+                    } else {
+                        Some(match kind % 3 {
+                            0 => SelectorBuilder::MultiSelector(subs),
+                            1 => SelectorBuilder::CompositeSelector(subs),
+                            _ => SelectorBuilder::DirectionalSelector(subs),
+                        })
+                    }
+                }
+            };
+            let Some(tb) = tb else {
+                out.label("extra:no_referent");
+                return true;
+            };
+            let mut b = AnnotationBuilder::new().with_target(tb);
+            if let Some(i) = id {
+                b = b.with_id(xid(*i, counter));
+            }
+            for d in data {
+                let set = XSETS[d.set as usize % XSETS.len()];
+                let key = xkey(set, d.key);
+                b = b.with_data_builder(
+                    AnnotationDataBuilder::new()
+                        .with_dataset(BuildItem::Id(set.to_string()))
+                        .with_key(BuildItem::Id(key.to_string()))
+                        .with_value(d.val.to_stam()),
+                );
+            }
+            match catch(|| store.annotate(b)) {
+                Ok(Ok(_)) => out.label("extra:annotate"),
+                Ok(Err(_)) => out.label("extra:rejected"),
+                Err(_) => return false,
+            }
+        }
+    }
+    true
+}
+
+// ------------------------------------------------------------------------------------------------
+// the oracle for one annotation
+
+fn is_anno_set(id: &str) -> bool {
+    id == W3C_NS_ANNO || id == W3C_CONTEXT_ANNO
+}
+
+struct Datum {
+    set: String,
+    key: String,
+    val: Val,
+}
+
+fn check_annotation(store: &AnnotationStore, a: &ResultItem<Annotation>, cfg: &Cfg, wcfg: &WebAnnoConfig, out: &mut Outcome) -> bool {
+    // ---- the annotation as the public API presents it
+    let mut ranged = false;
+    let target = decode_selector(store, a.as_ref().target(), &mut ranged);
+    let kind = target.kind();
+    out.label(&format!("sel:{}", kind));
+    if ranged {
+        out.label("sel:ranged-internally");
+    }
+    let ann_id: Option<String> = a.id().map(|s| s.to_string());
+    let tsels: Vec<(String, usize, usize)> = a
+        .textselections()
+        .map(|t| (t.resource().id().unwrap_or("").to_string(), t.begin(), t.end()))
+        .collect();
+    let data: Vec<Datum> = a
+        .data()
+        .map(|d| Datum {
+            set: d.set().id().unwrap_or("").to_string(),
+            key: d.key().id().unwrap_or("").to_string(),
+            val: Val::from_stam(d.value()),
+        })
+        .collect();
+    let res_id = |r: usize| -> String {
+        store
+            .resource(TextResourceHandle::new(r))
+            .and_then(|r| r.id().map(|s| s.to_string()))
+            .unwrap_or_default()
+    };
+    let set_id = |s: usize| -> String {
+        store
+            .dataset(AnnotationDataSetHandle::new(s))
+            .and_then(|r| r.id().map(|s| s.to_string()))
+            .unwrap_or_default()
+    };
+
+    // ---- features
+    let mut feat = Features::default();
+    if let Some(id) = &ann_id {
+        feat.add_str("id", id);
+    }
+    for (rid, _, _) in &tsels {
+        feat.add_str("id", rid);
+    }
+    let mut idless_target = false;
+    // expected non-text referents: (what, patterns)
+    let mut exp_refs: Vec<(&'static str, Vec<Pattern>, String)> = vec![];
+    for leaf in target.leaves() {
+        match leaf {
+            MSel::Res(r) => {
+                let id = res_id(*r);
+                feat.add_str("id", &id);
+                exp_refs.push(("resource", iri_patterns(&cfg.res_iri, &id), id));
+            }
+            MSel::Set(s) => {
+                let id = set_id(*s);
+                feat.add_str("id", &id);
+                exp_refs.push(("dataset", iri_patterns(&cfg.set_iri, &id), id));
+            }
+            MSel::Ann { ann, text: None } => {
+                match store.annotation(AnnotationHandle::new(*ann)).and_then(|x| x.id().map(|s| s.to_string())) {
+                    Some(id) => {
+                        feat.add_str("id", &id);
+                        exp_refs.push(("annotation", iri_patterns(&cfg.ann_iri, &id), id));
+                    }
+                    None => idless_target = true,
+                }
+            }
+            MSel::Key(..) | MSel::Data(..) => {
+                if target.is_complex() {
+                    feat.add("target", "skipped-subselector");
+                }
+            }
+            _ => {}
+        }
+    }
+    let mut toplevel_anno = false;
+    for d in &data {
+        feat.add_val(&d.val, 0);
+        feat.add_str("key", &d.key);
+        feat.add_str("id", &d.set);
+        if is_anno_set(&d.set) {
+            if matches!(d.key.as_str(), "generated" | "generator" | "motivation" | "created" | "creator") {
+                feat.add("toplevel", "anno-predicate");
+                toplevel_anno = true;
+            } else {
+                out.label("anno:body");
+            }
+        }
+    }
+    if toplevel_anno {
+        out.label("anno:toplevel");
+    }
+    if !cfg.extra_context.is_empty() {
+        feat.add("config", "extra_context");
+    }
+    if cfg.template.is_some() && !tsels.is_empty() {
+        feat.add("config", "template");
+        out.label("tpl:used");
+        if target.is_complex() {
+            out.label("tpl:complex");
+        }
+    }
+    for (w, c) in &feat.items {
+        match *w {
+            "value" => out.label(&format!("val:{}", c)),
+            "key" => out.label(&format!("chr:key:{}", c)),
+            "id" => out.label(&format!("chr:id:{}", c)),
+            _ => {}
+        }
+    }
+    if feat.has("target", "skipped-subselector") {
+        out.label("sel:complex-with-key-or-data");
+    }
+
+    // ---- export
+    let exported = match catch(|| a.to_webannotation(wcfg)) {
+        Ok(s) => s,
+        Err(p) => {
+            out.fail(
+                "panic",
+                p.signature(),
+                format!("to_webannotation panicked at {}:{}: {} ({} target)", p.file, p.line, p.msg, kind),
+            );
+            return feat.nontrivial();
+        }
+    };
+    if std::env::var_os("C17_DUMP").is_some() {
+        // triage aid for replays: show what was exported (does not influence the verdict)
+        println!("  export of {} {:?}: {}", kind, ann_id, exported);
+    }
+    out.checks += 1;
+    let may_decline = matches!(target, MSel::Key(..) | MSel::Data(..));
+    if exported.is_empty() {
+        out.label("declined");
+        if !may_decline {
+            out.fail(
+                "declined",
+                kind,
+                format!("to_webannotation returned nothing for an annotation with a {}", kind),
+            );
+        }
+        return false;
+    }
+    if may_decline {
+        out.dontcare += 1;
+    }
+
+    // ---- "the JSON output will be on a single line" (rustdoc of to_webannotation)
+    out.checks += 1;
+    if exported.contains('\n') {
+        out.fail("wellformed.single-line", feat.diagnose(), format!("output contains a raw newline: {:?}", short(&exported)));
+    }
+    // ---- facet wellformed: exactly one JSON object
+    let json: Value = match serde_json::from_str(&exported) {
+        Ok(v) => v,
+        Err(e) => {
+            out.fail(
+                "wellformed",
+                feat.diagnose(),
+                format!("not well-formed JSON ({}): {}", e, short(&exported)),
+            );
+            return feat.nontrivial();
+        }
+    };
+    let Value::Object(top) = &json else {
+        out.fail("wellformed", "not-an-object", format!("output is a JSON {}: {}", json_type(&json), short(&exported)));
+        return feat.nontrivial();
+    };
+    out.label("exported");
+
+    // ---- top level: type, id, @context
+    out.checks += 1;
+    let type_ok = match top.get("type") {
+        Some(Value::String(s)) => s == "Annotation",
+        Some(Value::Array(v)) => v.iter().any(|x| x == "Annotation"),
+        _ => false,
+    };
+    if !type_ok && !data.iter().any(|d| is_anno_set(&d.set) && d.key == "type") {
+        out.fail("toplevel.type", "type", format!("top-level type is {:?}: {}", top.get("type"), short(&exported)));
+    }
+    match (&ann_id, top.get("id")) {
+        (Some(id), Some(Value::String(got))) => {
+            out.checks += 1;
+            if !matches_any(&iri_patterns(&cfg.ann_iri, id), got) {
+                out.fail(
+                    "toplevel.id",
+                    format!("annotation|{}", id_sig(id)),
+                    format!("annotation id {:?} with prefix {:?} exported as {:?}", id, cfg.ann_iri, got),
+                );
+            }
+        }
+        (Some(id), other) => {
+            out.checks += 1;
+            if !data.iter().any(|d| is_anno_set(&d.set) && d.key == "id") {
+                out.fail(
+                    "toplevel.id",
+                    format!("annotation|{}|absent", id_sig(id)),
+                    format!("annotation id {:?} exported as {:?}", id, other),
+                );
+            }
+        }
+        (None, Some(Value::String(got))) if cfg.generate_ids => {
+            out.checks += 1;
+            let alts = prefix_alts(&cfg.ann_iri);
+            if !alts.iter().any(|p| got.starts_with(p.as_str())) {
+                out.fail("toplevel.id", "generated|prefix", format!("generated id {:?} lacks the prefix {:?}", got, cfg.ann_iri));
+            }
+        }
+        (None, None) if cfg.generate_ids => {
+            out.checks += 1;
+            out.fail("toplevel.id", "generated|absent", "generate_annotation_iri is set but the output has no id".to_string());
+        }
+        _ => out.dontcare += 1,
+    }
+    check_context(top.get("@context"), cfg, out);
+
+    // ---- facet target.*
+    match top.get("target") {
+        None => out.fail("target.text", format!("{}|absent", kind), format!("no target in {}", short(&exported))),
+        Some(t) => {
+            let (primary, extra): (&Value, &[Value]) = match (cfg.template.is_some(), t) {
+                (true, Value::Array(v)) if !v.is_empty() => (&v[0], &v[1..]),
+                _ => (t, &[]),
+            };
+            let mut obs = TargetObs::default();
+            walk_target(primary, &mut obs);
+            let mut xobs = TargetObs::default();
+            for x in extra {
+                walk_target(x, &mut xobs);
+            }
+            for o in obs.odd.iter().chain(xobs.odd.iter()) {
+                out.fail("target.shape", kind, format!("{} in target of {}", o, short(&exported)));
+            }
+            // text selections, in order
+            out.checks += 1;
+            let mut sources_ok = obs.texts.len() == tsels.len();
+            if obs.texts.len() != tsels.len() {
+                out.fail(
+                    "target.text",
+                    format!("{}|count", kind),
+                    format!("annotation has {} text selections {:?}, target names {}: {}", tsels.len(), tsels, obs.texts.len(), short(&t.to_string())),
+                );
+            } else {
+                for ((rid, b, e), (src, start, end)) in tsels.iter().zip(obs.texts.iter()) {
+                    out.checks += 2;
+                    if *start != Some(*b as u64) || *end != Some(*e as u64) {
+                        out.fail(
+                            "target.text",
+                            format!("{}|offsets", kind),
+                            format!("text selections {:?} exported as {:?}", tsels, obs.texts),
+                        );
+                    }
+                    if !matches_any(&iri_patterns(&cfg.res_iri, rid), src) {
+                        sources_ok = false;
+                        out.fail(
+                            "target.text",
+                            format!("{}|source|{}", kind, id_sig(rid)),
+                            format!("resource {:?} with prefix {:?} exported as source {:?}", rid, cfg.res_iri, src),
+                        );
+                    }
+                }
+            }
+            // extra targets from the template
+            match &cfg.template {
+                Some(tpl) => {
+                    if sources_ok {
+                        let expected: Vec<String> = tsels
+                            .iter()
+                            .zip(obs.texts.iter())
+                            .map(|((_, b, e), (src, _, _))| {
+                                tpl.replace("{resource}", src).replace("{begin}", &b.to_string()).replace("{end}", &e.to_string())
+                            })
+                            .collect();
+                        out.checks += 1;
+                        let mut got = obs.strings.clone();
+                        got.extend(xobs.strings.iter().cloned());
+                        if got != expected {
+                            out.fail(
+                                "target.template",
+                                format!("{}|{}", kind, tsels.iter().map(|t| worst_class(&t.0)).max_by_key(|c| class_rank(c)).unwrap_or("none")),
+                                format!("template {:?}: expected extra targets {:?}, got {:?} in {}", tpl, expected, got, short(&t.to_string())),
+                            );
+                        }
+                    }
+                }
+                None => {
+                    out.checks += 1;
+                    if !obs.strings.is_empty() {
+                        out.fail("target.shape", format!("{}|strings", kind), format!("bare strings {:?} in target without template", obs.strings));
+                    }
+                }
+            }
+            // other referents (order and type strings are not documented: compared as multisets of ids)
+            if idless_target {
+                out.dontcare += 1;
+                out.label("target:idless-annotation");
+            } else {
+                out.checks += 1;
+                let mut unused: Vec<&Option<String>> = obs.refs.iter().collect();
+                let mut missing = false;
+                for (what, pats, id) in &exp_refs {
+                    let pos = unused.iter().position(|r| match r {
+                        Some(s) => matches_any(pats, s),
+                        None => false,
+                    });
+                    match pos {
+                        Some(i) => {
+                            unused.remove(i);
+                        }
+                        None => {
+                            missing = true;
+                            out.fail(
+                                "target.ref",
+                                format!("{}|{}|{}", kind, what, id_sig(id)),
+                                format!(
+                                    "targeted {} {:?} (prefixes: annotation {:?}, set {:?}, resource {:?}) not named by the target (ids found: {:?}) in {}",
+                                    what,
+                                    id,
+                                    cfg.ann_iri,
+                                    cfg.set_iri,
+                                    cfg.res_iri,
+                                    obs.refs,
+                                    short(&t.to_string())
+                                ),
+                            )
+                        }
+                    }
+                }
+                if !unused.is_empty() && !missing {
+                    out.fail(
+                        "target.ref",
+                        format!("{}|surplus", kind),
+                        format!("target names {:?} which the annotation does not target: {}", unused, short(&t.to_string())),
+                    );
+                }
+            }
+        }
+    }
+
+    // ---- facet body.*
+    let body = top.get("body");
+    let body_obj: Option<&serde_json::Map<String, Value>> = match body {
+        Some(Value::Object(m)) => Some(m),
+        Some(other) => {
+            out.fail("body.shape", "not-an-object", format!("body is a JSON {}", json_type(other)));
+            None
+        }
+        None => None,
+    };
+    // predicate identity: annotations with two data of the same predicate are excluded (JSON object semantics)
+    let ident = |d: &Datum| -> String {
+        if is_anno_set(&d.set) {
+            format!("anno\u{0}{}", d.key)
+        } else {
+            format!("{}\u{0}{}", d.set, d.key)
+        }
+    };
+    let mut idents: Vec<String> = data.iter().map(ident).collect();
+    idents.sort();
+    let dup = idents.windows(2).any(|w| w[0] == w[1]);
+    if dup {
+        out.label("dup_predicate");
+        out.dontcare += data.len() as u64;
+    } else if !data.is_empty() {
+        // candidate members: (location, name, value)
+        let mut members: Vec<(&'static str, &String, &Value)> = vec![];
+        if let Some(m) = body_obj {
+            for (k, v) in m {
+                members.push(("body", k, v));
+            }
+        }
+        for (k, v) in top {
+            if k != "body" && k != "target" && k != "@context" {
+                members.push(("top", k, v));
+            }
+        }
+        // which members can carry which datum?
+        let mut cands: Vec<Vec<usize>> = vec![];
+        for d in &data {
+            let mut c = vec![];
+            if is_anno_set(&d.set) {
+                // W3C vocabulary: the key is the predicate; top level or body
+                let in_body: Vec<usize> = members
+                    .iter()
+                    .enumerate()
+                    .filter(|(_, (loc, name, _))| *loc == "body" && **name == d.key)
+                    .map(|(i, _)| i)
+                    .collect();
+                if !in_body.is_empty() {
+                    c = in_body;
+                } else {
+                    c = members
+                        .iter()
+                        .enumerate()
+                        .filter(|(_, (loc, name, _))| *loc == "top" && **name == d.key)
+                        .map(|(i, _)| i)
+                        .collect();
+                }
+            } else {
+                let pats = predicate_patterns(cfg, &d.set, &d.key);
+                for (i, (loc, name, _)) in members.iter().enumerate() {
+                    if *loc != "body" {
+                        continue;
+                    }
+                    let exps = cfg.expansions(name);
+                    if exps.iter().any(|n| matches_any(&pats, n)) {
+                        if exps.len() > 1 && !matches_any(&pats, name) {
+                            out.label("ns:compacted");
+                        }
+                        c.push(i);
+                    }
+                }
+            }
+            cands.push(c);
+        }
+        for (di, d) in data.iter().enumerate() {
+            let c = &cands[di];
+            out.checks += 1;
+            if c.is_empty() {
+                out.fail(
+                    "body.missing",
+                    format!("{}|key={}|set={}", if is_anno_set(&d.set) { "anno" } else { "custom" }, id_sig(&d.key), id_sig(&d.set)),
+                    format!(
+                        "no member for key {:?} of set {:?} (value {:?}) in body/top level; members: {:?}",
+                        d.key,
+                        d.set,
+                        d.val,
+                        members.iter().map(|(l, n, _)| format!("{}:{}", l, n)).collect::<Vec<_>>()
+                    ),
+                );
+                continue;
+            }
+            // ambiguous when another datum competes for the same member or several members match
+            let contested = c.len() > 1 || cands.iter().enumerate().any(|(dj, cj)| dj != di && cj.iter().any(|m| c.contains(m)));
+            if contested {
+                out.dontcare += 1;
+                out.label("body:ambiguous-predicate");
+                continue;
+            }
+            let (loc, name, jv) = members[c[0]];
+            if let Err(m) = cmp_val(&d.val, jv, &mut out.dontcare) {
+                out.fail(
+                    m.facet,
+                    m.sig,
+                    format!("key {:?} of set {:?} exported as {} member {:?}: {}", d.key, d.set, loc, name, m.detail),
+                );
+            }
+        }
+    }
+    feat.nontrivial()
+}
+
+fn class_rank(c: &str) -> usize {
+    CLASS_PRIORITY.iter().position(|x| *x == c).map(|i| CLASS_PRIORITY.len() - i).unwrap_or(0)
+}
+
+/// signature token of an identifier: its IRI class and its most dangerous character class
+fn id_sig(id: &str) -> String {
+    let c = match classify(id) {
+        IdClass::Iri => "iri",
+        IdClass::Plain => "plain",
+        IdClass::Uncertain => "iri-like",
+    };
+    format!("{}:{}", c, worst_class(id))
+}
+
+fn check_context(ctx: Option<&Value>, cfg: &Cfg, out: &mut Outcome) {
+    out.checks += 1;
+    let Some(ctx) = ctx else {
+        out.fail("context", "absent", "no @context".to_string());
+        return;
+    };
+    let members: Vec<&Value> = match ctx {
+        Value::Array(v) => v.iter().collect(),
+        other => vec![other],
+    };
+    if !members.iter().any(|m| m.as_str() == Some(W3C_CONTEXT_ANNO)) {
+        out.fail("context", "anno", format!("@context {} lacks {}", ctx, W3C_CONTEXT_ANNO));
+    }
+    for c in &cfg.extra_context {
+        out.checks += 1;
+        if !members.iter().any(|m| m.as_str() == Some(c.as_str())) {
+            out.fail("context", "extra_context", format!("@context {} lacks the extra context {:?}", ctx, c));
+        }
+    }
+    for (prefix, uri) in &cfg.namespaces {
+        out.checks += 1;
+        let found = members
+            .iter()
+            .any(|m| m.as_object().and_then(|o| o.get(prefix)).and_then(|v| v.as_str()) == Some(uri.as_str()));
+        if !found {
+            out.fail("context", "namespace", format!("@context {} lacks the alias {:?}: {:?}", ctx, prefix, uri));
+        }
+    }
+}
+
+// ------------------------------------------------------------------------------------------------
+
 impl Property for C17 {
-    type Case = u8;
+    type Case = Case;
     fn id(&self) -> &'static str {
         "C17"
     }
     fn rule(&self) -> String {
-        "not built yet".into()
+        "case = (hostile history, extra operations, export configuration). The history (add-resource / add-dataset / insert-data / annotate with all nine selector kinds / removals / protect-text; ids, keys and string values drawn from alphabets with quotes, backslashes, tabs, newlines, control characters, non-BMP codepoints, IRIs and number look-alikes; values of every type incl. nested lists and datetimes) is run through the model-based machine and only the final real store is used; the extra operations add resources and annotations whose ids come from a second hostile pool (trailing backslash, \\u escapes, CR, DEL, IRIs, IRI look-alikes), with data in IRI-named datasets, in the W3C anno vocabulary (motivation/created/creator/generated/generator/type/id/...) and with further hostile values. Every annotation of the final store is exported under the configuration (default IRIs for annotations/sets/resources from 7 prefixes, 0-3 namespaces, 0-2 extra contexts, optional extra_target_template, generate_annotation_iri, auto_generated, auto_generator) and checked: declined only for DataKeySelector/AnnotationDataSelector targets; parses as exactly one JSON object; type/id/@context; target text selections (source IRI, start, end) equal textselections() in order, template targets, other targets by id; every datum found under its predicate with the same JSON type and content. Non-trivial = at least one exported annotation has an id, key or string value with a character JSON must escape, or a non-string value; distinct = distinct case JSON.".into()
     }
-    fn cases(&self, _tier: Tier) -> u64 {
-        0
+    fn assumptions(&self) -> Vec<String> {
+        vec![
+            "the annotation is taken as the store's public API presents it (textselections(), data(), target selector); whether that agrees with the history is C01/C02/C05 business, machine divergences are ignored and a machine panic ends the case without verdict".into(),
+            "IRI rule (rustdoc of WebAnnoConfig and trait IRI): an id that is an absolute http/https/urn/file IRI without IRI-invalid characters is exported as is; an id without a colon gets the prefix prepended (a '/' in between is accepted when the prefix has no trailing '/', '#' or ':'; an empty prefix may become '_:'); other ids with a colon may be treated either way; characters invalid in IRIs may be transformed in any way that keeps the valid characters in order and invents no control characters".into(),
+            "predicate of a datum = the key if it is an IRI, else set IRI + key; names are compared after expanding configured namespace prefixes, so which namespace compaction is chosen is don't care".into(),
+            "a string value containing ':' may be exported as plain string or as {\"id\": string}; W3C vocabulary predicates are looked up in the body first, then at top level".into(),
+            "annotations with two data of the same predicate are excluded from the body comparison; a member matched by several data or a datum matching several members is don't care".into(),
+            "floats are compared with a tolerance of 8 ulp-equivalents (serde_json's default float parser); integers may be exported as integral floats below 2^53; NaN/inf and magnitudes beyond 1e300 (f64::MAX printed positionally is rejected by serde_json itself as out of range) are not generated".into(),
+            "type strings of targets and body, the body id, the order of non-text targets, output for a DataKeySelector/AnnotationDataSelector that is not declined, and targets of annotations without public id are not checked".into(),
+            "extra_context entries are URLs without characters that need escaping, as the rustdoc demands".into(),
+        ]
     }
-    fn strategy(&self, _tier: Tier) -> BoxedStrategy<u8> {
-        any::<u8>().boxed()
+    fn cases(&self, tier: Tier) -> u64 {
+        tier.pick(40_000, 1_000_000)
     }
-    fn run(&self, _case: &u8) -> Outcome {
-        let mut o = Outcome::new();
-        o.skip("not built");
-        o
+    fn strategy(&self, tier: Tier) -> BoxedStrategy<Case> {
+        let hist = history_strategy(HistCfg {
+            max_ops: tier.pick(18, 40),
+            text_max: 20,
+            removal_weight: 3,
+            protect_weight: 1,
+            complex_weight: 3,
+            hostile: true,
+            data_only: false,
+        });
+        (hist, proptest::collection::vec(xop(), 0..=tier.pick(6, 10)), cfgspec())
+            .prop_map(|(hist, extras, cfg)| Case { hist, extras, cfg })
+            .boxed()
+    }
+
+    fn run(&self, case: &Case) -> Outcome {
+        let mut out = Outcome::new();
+        let cfg = case.cfg.resolve();
+        let wcfg = cfg.to_stam();
+        // ---- labels of the configuration
+        if cfg.template.is_some() {
+            out.label("cfg:template");
+        }
+        if !cfg.namespaces.is_empty() {
+            out.label("cfg:namespaces");
+        }
+        if !cfg.extra_context.is_empty() {
+            out.label("cfg:extra_context");
+        }
+        if cfg.ann_iri != "_:" || cfg.set_iri != "_:" || cfg.res_iri != "_:" {
+            out.label("cfg:custom_default_iri");
+        }
+        if cfg.set_iri != cfg.res_iri {
+            out.label("cfg:set_iri!=res_iri");
+        }
+        if cfg.generate_ids {
+            out.label("cfg:generate_ids");
+        }
+        if cfg.auto_generated {
+            out.label("cfg:auto_generated");
+        }
+        if cfg.auto_generator {
+            out.label("cfg:auto_generator");
+        }
+        // ---- build the store
+        let mut m = Machine::new(true);
+        for op in &case.hist.ops {
+            let step = m.apply(op);
+            if step.panic.is_some() {
+                out.label("machine_panic");
+                return out;
+            }
+            if step.result.is_err() || step.mismatch.is_some() {
+                out.label("machine_divergence");
+            }
+        }
+        let mut counter = 0usize;
+        for x in &case.extras {
+            if !apply_extra(&mut m.store, x, &mut counter, &mut out) {
+                out.label("machine_panic");
+                return out;
+            }
+        }
+        // ---- export every annotation
+        let store = &m.store;
+        let mut nontrivial = false;
+        let mut n = 0usize;
+        for a in store.annotations() {
+            n += 1;
+            nontrivial |= check_annotation(store, &a, &cfg, &wcfg, &mut out);
+        }
+        if n == 0 {
+            out.label("no_annotations");
+        }
+        out.nontrivial = nontrivial;
+        out
+    }
+
+    fn health(&self, labels: &BTreeMap<String, u64>, evals: u64) -> Vec<String> {
+        let mut complaints = vec![];
+        if evals < 1000 {
+            return complaints;
+        }
+        let frac = |l: &str| labels.get(l).copied().unwrap_or(0) as f64 / evals as f64;
+        let need: [(&str, f64); 30] = [
+            ("exported", 0.80),
+            ("val:quote", 0.20),
+            ("val:backslash", 0.20),
+            ("val:control", 0.20),
+            ("val:tab", 0.10),
+            ("val:newline", 0.10),
+            ("val:nonbmp", 0.15),
+            ("val:datetime", 0.10),
+            ("val:list", 0.10),
+            ("val:list-nested", 0.05),
+            ("val:list-empty", 0.03),
+            ("val:int", 0.25),
+            ("val:float", 0.20),
+            ("val:bool", 0.10),
+            ("val:null", 0.10),
+            ("val:iri-like", 0.10),
+            ("chr:key:quote", 0.10),
+            ("chr:key:backslash", 0.10),
+            ("chr:id:quote", 0.20),
+            ("chr:id:backslash", 0.20),
+            ("chr:id:nonbmp", 0.15),
+            ("sel:TextSelector", 0.50),
+            ("sel:AnnotationSelector", 0.30),
+            ("sel:ResourceSelector", 0.15),
+            ("sel:DataSetSelector", 0.08),
+            ("sel:MultiSelector", 0.15),
+            ("sel:CompositeSelector", 0.15),
+            ("sel:DirectionalSelector", 0.15),
+            ("cfg:template", 0.30),
+            ("cfg:namespaces", 0.40),
+        ];
+        for (l, min) in need {
+            if frac(l) < min {
+                complaints.push(format!("label {} in {:.1}% of cases, expected at least {:.0}%", l, frac(l) * 100.0, min * 100.0));
+            }
+        }
+        for (l, min) in [("cfg:extra_context", 0.25), ("anno:toplevel", 0.08), ("tpl:complex", 0.05), ("declined", 0.05)] {
+            if frac(l) < min {
+                complaints.push(format!("label {} in {:.1}% of cases, expected at least {:.0}%", l, frac(l) * 100.0, min * 100.0));
+            }
+        }
+        complaints
     }
 }
